@@ -48,6 +48,7 @@ func runC10(c *core.Ctx) {
 	c.MinInstances("C10-DISPATCH", 5+57)
 	c.Trust("go/types constant evaluation", "engine E1 for header offsets")
 	c.NotDecided("SGIP reading in which a response must echo all three sequence words (the PDU interface exposes one 32-bit identifier; that one is decided)")
+	headerCtorRule(c)
 
 	byNamed := map[*types.TypeName]*c10type{}
 	var all []*c10type
@@ -1383,4 +1384,142 @@ func setterChain(sf *ssa.Function) (string, bool) {
 		break
 	}
 	return strings.TrimPrefix(strings.Join(parts, ""), "."), len(parts) > 0
+}
+
+// headerCtorRule (C10-SEQ #ctor): the header constructors of the protocol packages (NewHeader, NewPduHeader) put their
+// arguments into the header in the order of the header's fields - the length first, the command next, the sequence
+// word(s) last. The generated responses and the PDU constructors hand the request's sequence identifier over through
+// them. Read structurally: the slots of the header (array fields element by element) that receive a parameter, taken
+// in field order, are the parameters in their order, each once.
+func headerCtorRule(c *core.Ctx) {
+	found := 0
+	for _, rel := range []string{"cmpp", "smgp", "sgip", "smpp"} {
+		pkg := c.Prog.Pkg(rel)
+		if pkg == nil {
+			continue
+		}
+		for _, name := range pkg.Types.Scope().Names() {
+			tf, ok := pkg.Types.Scope().Lookup(name).(*types.Func)
+			if !ok {
+				continue
+			}
+			sig := tf.Type().(*types.Signature)
+			if sig.Recv() != nil || sig.Results().Len() != 1 || sig.Params().Len() < 3 {
+				continue
+			}
+			rt := sig.Results().At(0).Type()
+			if pt, isP := rt.(*types.Pointer); isP {
+				rt = pt.Elem()
+			}
+			nt, isN := rt.(*types.Named)
+			if !isN || nt.Obj().Name() != "Header" {
+				continue
+			}
+			scalar := true
+			for i := 0; i < sig.Params().Len(); i++ {
+				if _, isB := sig.Params().At(i).Type().Underlying().(*types.Basic); !isB {
+					scalar = false
+				}
+			}
+			fn := c.Prog.SSAFunc(tf)
+			if !scalar || fn == nil || len(fn.Blocks) != 1 {
+				continue
+			}
+			found++
+			key := rel + "." + name + "#ctor"
+			pos := c.Prog.Pos(fn.Pos())
+			st, _ := nt.Underlying().(*types.Struct)
+			// the header object and the values stored into its fields
+			var hdr *ssa.Alloc
+			for _, ins := range fn.Blocks[0].Instrs {
+				if al, ok := ins.(*ssa.Alloc); ok && types.Identical(al.Type().(*types.Pointer).Elem(), nt) {
+					hdr = al
+				}
+			}
+			if hdr == nil || st == nil {
+				c.Unknown("C10-SEQ", key, pos, "the header is not built as a literal in the constructor")
+				continue
+			}
+			fieldVal := map[int]ssa.Value{}
+			elemVal := map[*ssa.Alloc]map[int64]ssa.Value{}
+			inPlace := map[int]map[int64]ssa.Value{}
+			for _, ins := range fn.Blocks[0].Instrs {
+				stt, ok := ins.(*ssa.Store)
+				if !ok {
+					continue
+				}
+				switch a := stt.Addr.(type) {
+				case *ssa.FieldAddr:
+					if a.X == ssa.Value(hdr) {
+						fieldVal[a.Field] = stt.Val
+					}
+				case *ssa.IndexAddr:
+					if al, isAl := a.X.(*ssa.Alloc); isAl {
+						if k, isK := constInt(a.Index); isK {
+							if elemVal[al] == nil {
+								elemVal[al] = map[int64]ssa.Value{}
+							}
+							elemVal[al][k] = stt.Val
+						}
+					}
+					// an array field filled in place: &hdr.Sequence[k]
+					if fa, isFA := a.X.(*ssa.FieldAddr); isFA && fa.X == ssa.Value(hdr) {
+						if k, isK := constInt(a.Index); isK {
+							if inPlace[fa.Field] == nil {
+								inPlace[fa.Field] = map[int64]ssa.Value{}
+							}
+							inPlace[fa.Field][k] = stt.Val
+						}
+					}
+				}
+			}
+			var got []string
+			for i := 0; i < st.NumFields(); i++ {
+				if ip := inPlace[i]; ip != nil {
+					var ks []int64
+					for k := range ip {
+						ks = append(ks, k)
+					}
+					sort.Slice(ks, func(a, b int) bool { return ks[a] < ks[b] })
+					for _, k := range ks {
+						if prm, isP := stripConv(ip[k]).(*ssa.Parameter); isP {
+							got = append(got, prm.Name())
+						}
+					}
+					continue
+				}
+				v := fieldVal[i]
+				if v == nil {
+					continue
+				}
+				if ld, isLd := v.(*ssa.UnOp); isLd && ld.Op == token.MUL {
+					if al, isAl := ld.X.(*ssa.Alloc); isAl && elemVal[al] != nil {
+						var ks []int64
+						for k := range elemVal[al] {
+							ks = append(ks, k)
+						}
+						sort.Slice(ks, func(a, b int) bool { return ks[a] < ks[b] })
+						for _, k := range ks {
+							if prm, isP := stripConv(elemVal[al][k]).(*ssa.Parameter); isP {
+								got = append(got, prm.Name())
+							}
+						}
+						continue
+					}
+				}
+				if prm, isP := stripConv(v).(*ssa.Parameter); isP {
+					got = append(got, prm.Name())
+				}
+			}
+			var want []string
+			for _, prm := range fn.Params {
+				want = append(want, prm.Name())
+			}
+			c.Decide(strings.Join(got, ",") == strings.Join(want, ","), "C10-SEQ", key, pos, "header fields in order receive the parameters in order ("+strings.Join(want, ", ")+")",
+				"the header's fields, in order, receive the parameters "+strings.Join(got, ", ")+" - expected "+strings.Join(want, ", ")+": an argument lands in the wrong header word (the sequence identifier of a generated response or of a constructed PDU is not the one handed in)")
+		}
+	}
+	if found == 0 {
+		c.Broken("C10-SEQ", "header#ctor", "no header constructor found")
+	}
 }
